@@ -132,7 +132,6 @@ impl Datagram {
     #[verifier::external_body]
     fn write(session_id: SessionId, payload: &[u8]) -> (r: Datagram)
         ensures r.sid == session_id, r.payload@ == dgram_wire(session_id, payload@),
-            dgram_wire(session_id, payload@).len() == dgram_header_len(session_id) + payload@.len(),
     { unimplemented!() }
     #[verifier::external_body]
     fn header_size(session_id: SessionId) -> (r: usize) ensures r == dgram_header_len(session_id), 1 <= r <= 8 { unimplemented!() }
@@ -286,17 +285,19 @@ impl QuicConnection {
     #[verifier::external_body]
     fn send_datagram(&self, data: QBytes) -> (r: Result<(), QSendDatagramError>)
         ensures r == send_outcome(data.b@), !(r matches Err(QSendDatagramError::Disabled)),
-            (r matches Err(QSendDatagramError::TooLarge)) <==> (quic_max_spec(*self) matches Some(m) && data.b@.len() > m),
+            (r matches Err(QSendDatagramError::TooLarge)) <==> too_large(*self, data.b@),
     { unimplemented!() }
     #[verifier::external_body]
     fn max_datagram_size(&self) -> (r: Option<usize>) ensures r == quic_max_spec(*self) { unimplemented!() }
 }
 // what datagram.rs `Datagram::write(session, payload).into_quic_bytes()` puts on the wire (unit
 // `datagram`: varint(session / 4) || payload)
-uninterp spec fn dgram_wire(session: SessionId, payload: Seq<u8>) -> Seq<u8>;
+uninterp spec fn dgram_header(session: SessionId) -> Seq<u8>;      // varint(session / 4), 1..=8 bytes
+spec fn dgram_wire(session: SessionId, payload: Seq<u8>) -> Seq<u8> { dgram_header(session) + payload }
 uninterp spec fn quic_max_spec(c: QuicConnection) -> Option<usize>;
-// length of varint(session / 4), 1..=8 (unit `datagram`)
-uninterp spec fn dgram_header_len(session: SessionId) -> usize;
+spec fn dgram_header_len(session: SessionId) -> nat { dgram_header(session).len() }
+// quinn's verdict on the size of a datagram
+spec fn too_large(c: QuicConnection, wire: Seq<u8>) -> bool { quic_max_spec(c) matches Some(m) && wire.len() > m }
 
 //@ extract wtransport/src/error.rs >> enum SendDatagramError
 //@ noderive
@@ -366,18 +367,20 @@ impl Driver {
 //@ loop 1 invariant true
 //@ end
 
-// C03 (send side): the bytes handed to QUIC are the datagram's wire image for THIS session, and the
-// verdict is quinn's: TooLarge iff quinn says too large, never refused otherwise for its size
+// C03 (send side): the bytes handed to QUIC are the datagram's wire image for THIS session; a payload is
+// refused as TooLarge IFF its wire image exceeds quinn's current max_datagram_size (an equivalent
+// local pre-check is fine), never otherwise for its size
 //@ extract wtransport/src/driver/mod.rs >> impl Driver >> fn send_datagram
 //@ rename `quinn::SendDatagramError` => `QSendDatagramError`
 //@ ensures
-//@ | match send_outcome(dgram_wire(session_id, payload@)) {
+//@ | if too_large(self.quic_connection, dgram_wire(session_id, payload@)) { r == Err::<(), SendDatagramError>(SendDatagramError::TooLarge) }
+//@ | else { match send_outcome(dgram_wire(session_id, payload@)) {
 //@ |     Ok(()) => r is Ok,
-//@ |     Err(QSendDatagramError::TooLarge) => r == Err::<(), SendDatagramError>(SendDatagramError::TooLarge),
 //@ |     Err(QSendDatagramError::UnsupportedByPeer) => r == Err::<(), SendDatagramError>(SendDatagramError::UnsupportedByPeer),
 //@ |     Err(QSendDatagramError::ConnectionLost(_)) => r == Err::<(), SendDatagramError>(SendDatagramError::NotConnected),
+//@ |     Err(QSendDatagramError::TooLarge) => true,
 //@ |     Err(QSendDatagramError::Disabled) => true,
-//@ | }
+//@ | } }
 //@ end
 
 // C17 / C03: only datagrams of this session are delivered, exactly as queued; others are dropped
